@@ -162,7 +162,7 @@ package modeling
 //@ const TWO64W = 18446744073709551616
 // Clock edges as closed terms over timing.period (C42 describes ThisTick/NextTick by their defining property).
 //@ func thisEdge(f, n) = ((n + timing.period(f) - 1) / timing.period(f)) * timing.period(f)
-//@ func nextEdge(f, n) = (n / timing.period(f) + 1) * timing.period(f)
+//@ func nextEdge(f, n) = ((n + timing.period(f)) / timing.period(f)) * timing.period(f)
 
 // The frequency is usable and the clock leaves two periods of headroom below 2^64 (tick times do not wrap).
 //@ pred tsWF(t) = t != nil && t.engine != nil && timing.validFreq(t.freq) && idGenOK() && 0 <= now && now + 2 * timing.period(t.freq) < TWO64W
@@ -182,11 +182,15 @@ package modeling
 //@   assigns nothing
 
 // Edge arithmetic, from the Euclidean division facts (p = period, n = q*p + r).
-//@ lemma edgeFacts(p, n, q, r, q2, r2)
+//@ lemma edgeFacts(p, n, q2, r2, q3, r3)
 //@   property C12 C09
-//@   requires p >= 1 && n >= 0 && n == q * p + r && 0 <= r && r < p && n + p - 1 == q2 * p + r2 && 0 <= r2 && r2 < p
-//@   label C12.lemma.edges
-//@   ensures q2 * p >= n && q2 * p < n + p && (q + 1) * p > n && q * p <= n && q2 * p <= (q + 1) * p && q2 >= 0 && (q2 == 0 || (q2 - 1) * p < n)
+//@   requires p >= 1 && n >= 0 && n + p - 1 == q2 * p + r2 && 0 <= r2 && r2 < p && n + p == q3 * p + r3 && 0 <= r3 && r3 < p
+//@   label C12.lemma.thisedge
+//@   ensures q2 * p >= n && q2 * p < n + p && q2 >= 0 && (q2 == 0 || (q2 - 1) * p < n)
+//@   label C12.lemma.nextedge
+//@   ensures q3 * p > n && (q3 - 1) * p <= n && q3 * p <= n + p && q3 >= 1
+//@   label C12.lemma.order
+//@   ensures q2 * p <= q3 * p
 
 //@ pred tnGuard(t) = t.hasScheduledTick && int(t.nextTickTime) >= now
 //@ pred tlGuard(t) = t.hasScheduledTick && int(t.nextTickTime) >= nextEdge(t.freq, now)
@@ -194,14 +198,15 @@ package modeling
 //@ fn (*TickScheduler).TickNow
 //@   property C12 C09
 //@   requires tsWF(t) && tsInv(t)
-//@   use edgeFacts(timing.period(t.freq), now, now / timing.period(t.freq), now % timing.period(t.freq), (now + timing.period(t.freq) - 1) / timing.period(t.freq), (now + timing.period(t.freq) - 1) % timing.period(t.freq))
+//@   use edgeFacts(timing.period(t.freq), now, (now + timing.period(t.freq) - 1) / timing.period(t.freq), (now + timing.period(t.freq) - 1) % timing.period(t.freq), (now + timing.period(t.freq)) / timing.period(t.freq), (now + timing.period(t.freq)) % timing.period(t.freq))
 //@   witness w int = t.nextTickTime
 // C09, from the property statement: after TickNow a tick is pending at or after the current instant.
 //@   label C09.ticknow.pending
 //@   ensures sched[t.handlerID][w] >= 1 && w >= now
-// What the code does guarantee: the same unless the recorded tick time is exactly the current instant.
-//@   label C09.ticknow.pending.unless.guard.at.now
-//@   ensures !(old(t.hasScheduledTick) && int(old(t.nextTickTime)) == now) ==> sched[t.handlerID][w] >= 1 && w >= now
+// What the code does guarantee: the same EXCEPT when the recorded tick time is the current instant and that tick has
+// already been dispatched (guard passes, nothing is scheduled, nothing is pending): the lost-wakeup case.
+//@   label C09.ticknow.pending.unless.tick.of.now.dispatched
+//@   ensures !(old(t.hasScheduledTick) && int(old(t.nextTickTime)) == now && old(sched)[t.handlerID][now] == 0) ==> sched[t.handlerID][w] >= 1 && w >= now
 //@   label C12.ticknow.dedup
 //@   ensures old(tnGuard(t)) ==> sched == old(sched) && t.nextTickTime == old(t.nextTickTime) && t.hasScheduledTick
 //@   label C12.ticknow.edge
@@ -215,7 +220,7 @@ package modeling
 //@ fn (*TickScheduler).TickLater
 //@   property C12 C09
 //@   requires tsWF(t) && tsInv(t)
-//@   use edgeFacts(timing.period(t.freq), now, now / timing.period(t.freq), now % timing.period(t.freq), (now + timing.period(t.freq) - 1) / timing.period(t.freq), (now + timing.period(t.freq) - 1) % timing.period(t.freq))
+//@   use edgeFacts(timing.period(t.freq), now, (now + timing.period(t.freq) - 1) / timing.period(t.freq), (now + timing.period(t.freq) - 1) % timing.period(t.freq), (now + timing.period(t.freq)) / timing.period(t.freq), (now + timing.period(t.freq)) % timing.period(t.freq))
 //@   label C12.later.pending
 //@   ensures sched[t.handlerID][t.nextTickTime] >= 1 && int(t.nextTickTime) > now && int(t.nextTickTime) == nextEdge(t.freq, now)
 //@   label C12.later.dedup
